@@ -361,7 +361,7 @@ def run(r):
         return
     # the streams are produced and checked part by part to bound memory
     nch = 8 if r.tier == "thorough" else 1
-    parts = [("seg-exh", i, nch) for i in range(nch)] + [("seg-sample", 0, 1), ("seg-fam", 0, 1), ("prog", 0, 1), ("line", 0, 1), ("cfg", 0, 1)]
+    parts = [("seg-exh", i, nch) for i in range(nch)] + [("seg-sample", 0, 1), ("seg-fam", 0, 1), ("prog", 0, 1), ("line", 0, 1), ("rand", 0, 1), ("cfg", 0, 1)]
     r.exhaustive = False
     for which, i, n in parts:
         rc, out, err = r.harness(exe, ["gen", r.tier, which, str(i), str(n)])
@@ -520,11 +520,26 @@ def check_lines(r, lines, model, verbose=False):
                 shown = unhex(o[3:]) if o.startswith("ok:") else o
                 r.oracle_failure(case, f"line form renders {shown!r}, the tags occupying those lines render {want!r} (source {unhex(fl['src'])!r})",
                                  f"line/{fam}/nl={nl}/" + ("error" if not o.startswith("ok:") else "output"))
+        elif stream == "rand":
+            r.count(case, True)
+            fam, d = parse_fam(f[2])
+            r.hist["rand-sets"]["line prefixes" if (d["ls"] or d["lc"]) else "no line prefixes"] += 1
+            mtok = ml.get("tok", "?")
+            if ml.get("valid") != "1":
+                r.broken.append(f"the model of validated_start_delims rejects a set that build accepted: {case}")
+            if mtok == "unsupported":
+                r.hist["model"]["unsupported interior"] += 1
+            else:
+                r.hist["model"]["compared"] += 1
+                if mtok != fl["tok"]:
+                    r.model_disagreement(case, fl["tok"], mtok)
         elif stream == "cfg":
             fam, d = parse_fam(f[1])
             r.count(case, True)
             ok = valid_cfg(d)
             b = fl["build"]
+            if ml.get("valid") != ("1" if ok else "0"):
+                r.broken.append(f"Lean validatedStartDelims and the Python validity rule disagree on {fam}")
             r.hist["cfg"][("valid" if ok else "invalid") + " -> " + b + (" render " + fl["render"].split(":")[0] if "render" in fl else "")] += 1
             if not ok:
                 if b != "err:InvalidDelimiter":
